@@ -38,14 +38,18 @@ for nm0, shape in SHAPES:
     for w, wn in ((0, "use"), (1, "assign"), (2, "placeholder")):
         if not quick and w != 0:
             continue
+        if w == 1 and nm0 in ("21", "101"):
+            continue   # assignment over 3-entry stacks: out of memory at 12 GB in the thorough tier (four instances), not registered
         for q, qn in ((0, "a"), (2, "c")):
+            if w == 2 and nm0 == "101" and q == 2:
+                continue   # out of memory at 12 GB
             add("undeclared_%s_%s_%s" % (wn, nm0, qn), "9.h", "undeclared_rule!(undeclared_%s_%s_%s, %d, %s, %d, %d);" % (wn, nm0, qn, len(shape), lit, w, q),
                 tier="quick" if quick and (w == 0 or nm0 in ("0", "1")) and (q == 0 or nm0 == "21") else "thorough",
                 mem_gb=8 if w != 1 else 12,
                 shape={"scopes": shape, "names": "{a,b} symbolic per slot", "query": qn, "construct": wn})
 for nm0, shape in (("1", [1]), ("21", [2, 1])):
     lit = "[%s]" % ", ".join(str(x) for x in shape)
-    for nargs in (0, 1, 2):
+    for nargs in (1, 2):   # the zero-argument instances ran into the 1800 s cap in the thorough tier (like call_builtin_a0)
         add("call_undeclared_%s_a%d" % (nm0, nargs), "9.i", "call_rule!(call_undeclared_%s_a%d, %d, %s, %d, false, 2);" % (nm0, nargs, len(shape), lit, nargs),
             tier="quick" if nargs == 1 else "thorough", shape={"function scopes": shape, "arguments": nargs, "callee": "h (not defined by any open block)"})
 for nargs in (1, 2):   # the zero-argument instance did not finish in 900 s (solver), the rejecting case is covered by a2
